@@ -18,8 +18,110 @@ fun SpecAmt(el seq[Element], k int, x string) float64 :=
 fun SpecHas(el seq[Element], k int, x string) bool :=
   if k <= 0 then false else (el[k-1].Name == x || SpecHas(el, k-1, x))
 
-pred Distinct(el seq[Element], k int) := forall i, j int :: 0 <= i && i < j && j < k ==> el[i].Name != el[j].Name
-pred SortedStrict(el seq[Element], k int) := forall i, j int :: 0 <= i && i < j && j < k ==> el[i].Name < el[j].Name
+// (opaque: the pairwise definitions are unfolded only where an argument needs them)
+fun Distinct(el seq[Element], k int) bool opaque := forall i, j int :: 0 <= i && i < j && j < k ==> el[i].Name != el[j].Name
+fun SortedStrict(el seq[Element], k int) bool opaque := forall i, j int :: 0 <= i && i < j && j < k ==> el[i].Name < el[j].Name
+
+// SpecSAmt: sum of el[i].Value*m for i<k with el[i].Name == x
+fun SpecSAmt(el seq[Element], m float64, k int, x string) float64 :=
+  if k <= 0 then 0.0 else (if el[k-1].Name == x then SpecSAmt(el, m, k-1, x) + el[k-1].Value * m else SpecSAmt(el, m, k-1, x))
+
+// WitIdx: greatest index i<k with el[i].Name == x (or -1)
+fun WitIdx(el seq[Element], k int, x string) int :=
+  if k <= 0 then 0 - 1 else (if el[k-1].Name == x then k - 1 else WitIdx(el, k-1, x))
+
+fun Sorted(el seq[Element], k int) bool opaque := forall i, j int :: 0 <= i && i < j && j < k ==> el[i].Name <= el[j].Name
+pred AgreeOn(a seq[Element], b seq[Element], k int) := forall i int :: {a[i]} {b[i]} 0 <= i && i < k ==> a[i] == b[i]
+
+// ---- lemmas about the spec functions (each proved by induction on k, used explicitly) ----
+
+// two lists that agree on [0,k) have the same amounts / members
+lemma AmtAgree(a seq[Element], b seq[Element], k int, x string)
+  requires AgreeOn(a, b, k)
+  ensures SpecAmt(a, k, x) == SpecAmt(b, k, x) && SpecHas(a, k, x) == SpecHas(b, k, x)
+  induction k { unfold SpecAmt(a, k, x); unfold SpecAmt(b, k, x); unfold SpecHas(a, k, x); unfold SpecHas(b, k, x) }
+
+// a store at or beyond k is invisible
+lemma AmtStoreOutside(a seq[Element], k int, i int, e Element, x string)
+  requires i >= k
+  ensures SpecAmt(store(a, i, e), k, x) == SpecAmt(a, k, x) && SpecHas(store(a, i, e), k, x) == SpecHas(a, k, x)
+  induction k { unfold SpecAmt(store(a, i, e), k, x); unfold SpecAmt(a, k, x); unfold SpecHas(store(a, i, e), k, x); unfold SpecHas(a, k, x) }
+
+// replacing the value of element n (same name) changes the amount of that name by the difference
+lemma AmtStoreInside(a seq[Element], k int, n int, v float64, x string)
+  requires 0 <= n && n < k
+  ensures SpecAmt(store(a, n, mk(Element, a[n].Name, v)), k, x) == SpecAmt(a, k, x) + (if a[n].Name == x then v - a[n].Value else 0.0)
+  ensures SpecHas(store(a, n, mk(Element, a[n].Name, v)), k, x) == SpecHas(a, k, x)
+  induction k {
+    unfold SpecAmt(store(a, n, mk(Element, a[n].Name, v)), k, x); unfold SpecAmt(a, k, x)
+    unfold SpecHas(store(a, n, mk(Element, a[n].Name, v)), k, x); unfold SpecHas(a, k, x)
+    useif AmtStoreOutside(a, k - 1, n, mk(Element, a[n].Name, v), x)
+  }
+
+// the same two facts for all names at once (ground instances whose conclusion is quantified with a trigger)
+lemma AmtAgreeAll(a seq[Element], b seq[Element], k int)
+  requires AgreeOn(a, b, k)
+  ensures forall x string :: {SpecAmt(b, k, x)} SpecAmt(a, k, x) == SpecAmt(b, k, x)
+  ensures forall x string :: {SpecHas(b, k, x)} SpecHas(a, k, x) == SpecHas(b, k, x)
+  { use forall x string :: AmtAgree(a, b, k, x) }
+lemma AmtStoreInsideAll(a seq[Element], k int, n int, v float64)
+  requires 0 <= n && n < k
+  ensures forall x string :: {SpecAmt(store(a, n, mk(Element, a[n].Name, v)), k, x)} SpecAmt(store(a, n, mk(Element, a[n].Name, v)), k, x) == SpecAmt(a, k, x) + (if a[n].Name == x then v - a[n].Value else 0.0)
+  ensures forall x string :: {SpecHas(store(a, n, mk(Element, a[n].Name, v)), k, x)} SpecHas(store(a, n, mk(Element, a[n].Name, v)), k, x) == SpecHas(a, k, x)
+  { use forall x string :: AmtStoreInside(a, k, n, v, x) }
+
+// scaling: SpecSAmt is m times SpecAmt
+lemma SAmtScale(a seq[Element], m float64, k int, x string)
+  ensures SpecSAmt(a, m, k, x) == m * SpecAmt(a, k, x)
+  induction k { unfold SpecSAmt(a, m, k, x); unfold SpecAmt(a, k, x) }
+
+// membership witnesses
+lemma HasAt(a seq[Element], k int, i int)
+  requires 0 <= i && i < k
+  ensures SpecHas(a, k, a[i].Name)
+  induction k { unfold SpecHas(a, k, a[i].Name) }
+lemma HasWit(a seq[Element], k int, x string)
+  ensures SpecHas(a, k, x) ==> 0 <= WitIdx(a, k, x) && WitIdx(a, k, x) < k && a[WitIdx(a, k, x)].Name == x
+  ensures !SpecHas(a, k, x) ==> SpecAmt(a, k, x) == 0.0
+  induction k { unfold SpecHas(a, k, x); unfold WitIdx(a, k, x); unfold SpecAmt(a, k, x) }
+// in a list with distinct names the amount of a name is the value of its only element
+lemma DistinctAmtAt(a seq[Element], k int, i int)
+  requires Distinct(a, k) && 0 <= i && i < k
+  ensures SpecAmt(a, k, a[i].Name) == a[i].Value
+  induction k { unfold Distinct(a, k); unfold Distinct(a, k - 1); unfold SpecAmt(a, k, a[i].Name); use HasWit(a, k - 1, a[i].Name); useif HasAt(a, k - 1, WitIdx(a, k - 1, a[i].Name)) }
+
+// b[0..n) is a permutation of a[0..n): ghost bijection witnesses EFwd (a-index -> b-index) and EBack
+fun EFwd(a seq[Element], b seq[Element], i int) int
+fun EBack(a seq[Element], b seq[Element], i int) int
+pred PermOf(a seq[Element], b seq[Element], n int) :=
+     (forall i int :: {EFwd(a, b, i)} 0 <= i && i < n ==> 0 <= EFwd(a, b, i) && EFwd(a, b, i) < n && b[EFwd(a, b, i)] == a[i] && EBack(a, b, EFwd(a, b, i)) == i)
+  && (forall j int :: {EBack(a, b, j)} 0 <= j && j < n ==> 0 <= EBack(a, b, j) && EBack(a, b, j) < n && a[EBack(a, b, j)] == b[j] && EFwd(a, b, EBack(a, b, j)) == j)
+
+// a permutation of a list with distinct names has distinct names, and the same amount and membership per name
+lemma PermDistinct(a seq[Element], b seq[Element], n int)
+  requires Distinct(a, n) && PermOf(a, b, n)
+  ensures Distinct(b, n)
+  { unfold Distinct(a, n); unfold Distinct(b, n) }
+// sorted and without repeated names is strictly sorted
+lemma SortedDistinctStrict(a seq[Element], n int)
+  requires Sorted(a, n) && Distinct(a, n)
+  ensures SortedStrict(a, n)
+  { unfold Sorted(a, n); unfold Distinct(a, n); unfold SortedStrict(a, n) }
+lemma PermAmt(a seq[Element], b seq[Element], n int, x string)
+  requires Distinct(a, n) && PermOf(a, b, n)
+  ensures SpecAmt(b, n, x) == SpecAmt(a, n, x) && SpecHas(b, n, x) == SpecHas(a, n, x)
+  {
+    use PermDistinct(a, b, n)
+    use HasWit(a, n, x); use HasWit(b, n, x)
+    useif DistinctAmtAt(a, n, WitIdx(a, n, x)); useif HasAt(b, n, EFwd(a, b, WitIdx(a, n, x))); useif DistinctAmtAt(b, n, EFwd(a, b, WitIdx(a, n, x)))
+    useif HasAt(a, n, EBack(a, b, WitIdx(b, n, x)))
+  }
+lemma PermAmtAll(a seq[Element], b seq[Element], n int)
+  requires Distinct(a, n) && PermOf(a, b, n)
+  ensures Distinct(b, n)
+  ensures forall x string :: {SpecAmt(b, n, x)} SpecAmt(b, n, x) == SpecAmt(a, n, x)
+  ensures forall x string :: {SpecHas(b, n, x)} SpecHas(b, n, x) == SpecHas(a, n, x)
+  { use PermDistinct(a, b, n); use forall x string :: PermAmt(a, b, n, x) }
 
 // a recipe book as the loader builds it: a non-nil map whose values are non-nil
 pred WfDB(db DBNodeMap) := db != nil && (forall k string :: {db[k]} k in db ==> db[k] != nil)
@@ -41,4 +143,62 @@ func (*Elements).Add
   ensures @last   (*el)[old(len(*el))].Name == name && (*el)[old(len(*el))].Value == val
   ensures @prefix forall i int :: 0 <= i && i < old(len(*el)) ==> (*el)[i] == old((*el)[i])
   ensures @arr    arr(*el) == old(arr(*el)) || fresh(arr(*el))
+
+// SumMerge adds mult times every element of left to *el, merging by name: afterwards every name occurs once,
+// the amount of every name has grown by exactly mult times its amount in left, the names present are the old
+// ones plus those of left, and the old elements keep their positions. left itself is not changed.
+func (*Elements).SumMerge
+  props C01 C02
+  requires el != nil && Distinct(elems(*el), len(*el))
+  requires @separate arr(*el) != arr(left)
+  modifies *el, elems(*el)
+  ensures @distinct Distinct(elems(*el), len(*el))
+  ensures @amounts forall x string :: {SpecAmt(elems(*el), len(*el), x)} SpecAmt(elems(*el), len(*el), x) == old(SpecAmt(elems(*el), len(*el), x)) + SpecSAmt(old(elems(left)), mult, len(left), x)
+  ensures @names forall x string :: {SpecHas(elems(*el), len(*el), x)} SpecHas(elems(*el), len(*el), x) == (old(SpecHas(elems(*el), len(*el), x)) || SpecHas(old(elems(left)), len(left), x))
+  ensures @prefix len(*el) >= old(len(*el)) && (forall i int :: {(*el)[i]} 0 <= i && i < old(len(*el)) ==> (*el)[i].Name == old((*el)[i].Name))
+  ensures @arr arr(*el) == old(arr(*el)) || fresh(arr(*el))
+  ensures @left-unchanged elems(left) == old(elems(left))
+  loop 1 {
+    invariant @el el == old(el) && left == old(left) && mult == old(mult)
+    invariant @distinct Distinct(elems(*el), len(*el))
+    invariant @separate arr(*el) != arr(left) && (arr(*el) == old(arr(*el)) || fresh(arr(*el))) && elems(left) == old(elems(left))
+    invariant @amounts forall x string :: {SpecAmt(elems(*el), len(*el), x)} SpecAmt(elems(*el), len(*el), x) == old(SpecAmt(elems(*el), len(*el), x)) + SpecSAmt(old(elems(left)), mult, #i, x)
+    invariant @names forall x string :: {SpecHas(elems(*el), len(*el), x)} SpecHas(elems(*el), len(*el), x) == (old(SpecHas(elems(*el), len(*el), x)) || SpecHas(old(elems(left)), #i, x))
+    invariant @prefix len(*el) >= old(len(*el)) && (forall i int :: {(*el)[i]} 0 <= i && i < old(len(*el)) ==> (*el)[i].Name == old((*el)[i].Name))
+  }
+  ghost at entry { unfold forall x string :: SpecSAmt(elems(left), mult, 0, x); unfold forall x string :: SpecHas(elems(left), 0, x) }
+  ghost before call 1 Index {
+    unfold Distinct(elems(*el), len(*el))
+    let k1 := #i + 1
+    unfold forall x string :: SpecSAmt(old(elems(left)), mult, k1, x)
+    unfold forall x string :: SpecHas(old(elems(left)), k1, x)
+  }
+  // merged into an existing element (same name, value increased) ...
+  ghost after store 1 {
+    use AmtStoreInsideAll(at(loop1, elems(*el)), len(*el), ndx, at(loop1, elems(*el))[ndx].Value + v.Value * mult)
+    use HasAt(at(loop1, elems(*el)), len(*el), ndx)
+    assert @merged-amounts forall x string :: {SpecAmt(elems(*el), len(*el), x)} SpecAmt(elems(*el), len(*el), x) == old(SpecAmt(elems(*el), len(*el), x)) + SpecSAmt(old(elems(left)), mult, k1, x)
+    assert @merged-names forall x string :: {SpecHas(elems(*el), len(*el), x)} SpecHas(elems(*el), len(*el), x) == (old(SpecHas(elems(*el), len(*el), x)) || SpecHas(old(elems(left)), k1, x))
+    unfold Distinct(elems(*el), len(*el))
+    assert @merged-distinct Distinct(elems(*el), len(*el))
+  }
+  // ... or appended as a new last element
+  ghost after call 1 Add {
+    let n1 := len(*el)
+    use AmtAgreeAll(at(loop1, elems(*el)), elems(*el), at(loop1, len(*el)))
+    unfold forall x string :: SpecAmt(elems(*el), n1, x)
+    unfold forall x string :: SpecHas(elems(*el), n1, x)
+    assert @appended-amounts forall x string :: {SpecAmt(elems(*el), len(*el), x)} SpecAmt(elems(*el), len(*el), x) == old(SpecAmt(elems(*el), len(*el), x)) + SpecSAmt(old(elems(left)), mult, k1, x)
+    assert @appended-names forall x string :: {SpecHas(elems(*el), len(*el), x)} SpecHas(elems(*el), len(*el), x) == (old(SpecHas(elems(*el), len(*el), x)) || SpecHas(old(elems(left)), k1, x))
+    unfold Distinct(elems(*el), len(*el))
+    assert @appended-distinct Distinct(elems(*el), len(*el))
+  }
+
+// Sort: in place, by name, a permutation (sort.Sort is assumed; Len/Less/Swap are the obvious ones)
+func (Elements).Sort
+  props C01 C02
+  calluse Sort#1 elements
+  modifies elems(el)
+  ensures @sorted Sorted(elems(el), len(el))
+  ensures @perm PermOf(old(elems(el)), elems(el), len(el))
 @*/
